@@ -7,7 +7,7 @@ V = os.path.dirname(os.path.dirname(os.path.abspath(__file__)))
 
 TABLE = {
  "C01": ("exploration", "generated events x ambient sets x filter/destination combinator trees vs logical reference evaluator; generic-vs-erased differential (proptest)", "3/C01"),
- "C02": ("exploration", "generated key/value lists x combinator nestings: get vs first-enumerated reference; generated macro call-site programs (proptest + program generation)", "3/C02"),
+ "C02": ("exploration", "generated key/value lists x combinator nestings: get vs first-enumerated reference; generated macro call-site programs (proptest + program generation) + libFuzzer target props_tree", "3/C02"),
  "C03": ("exploration", "generated well-nested frame programs with owned poll schedules, panics and thread hops vs per-thread stack model (proptest, stateful)", "3/C03"),
  "C04": ("exploration", "generated span trees (sync/async/manual, disabled nodes, hops, incoming ids) vs relational trace-tree oracle (proptest)", "3/C04"),
  "C05": ("exploration", "generated SpanGuard operation sequences and macro exit paths vs state-machine model (proptest, stateful)", "3/C05"),
@@ -18,11 +18,11 @@ TABLE = {
  "C10": ("fault_enumeration", "batch histories x single-fault-exhaustive and random multi-fault plans x crash images on a model filesystem vs durability/tokeniser oracle", "3/C10"),
  "C11": ("fault_enumeration", "configurations x clock trajectories x histories x directory contents vs naming/rolling/retention reference and op-log audit (proptest, stateful)", "3/C11"),
  "C12": ("fault_enumeration", "event streams x per-request collector fault scripts x transports against a scripted local collector vs at-least-once/exactly-once oracle", "3/C12"),
- "C13": ("exploration", "events over a recursive value grammar through every sink, decoded with prost/JSON readers vs reference mapping; proto-vs-JSON differential; libFuzzer target", "3/C13"),
+ "C13": ("exploration", "events over a recursive value grammar through every sink, decoded with prost/JSON readers vs reference mapping; proto-vs-JSON differential; libFuzzer target value_to_sinks", "3/C13"),
  "C14": ("exploration", "complete enumeration of event classes x 8 signal subsets against a routing classifier", "3/C14"),
  "C15": ("exploration", "round-trip and independent-recogniser oracles over generated values, near-miss texts, exhaustive short-string/substitution sub-spaces (proptest) + libFuzzer target parse_any", "3/C15"),
- "C16": ("exploration", "generated part sequences, re-splittings and props vs normal-form equality and reference renderer; std::format! differential in generated programs; libFuzzer target", "3/C16"),
- "C17": ("exploration", "generated registration lists x modules x level values vs linear-scan longest-prefix reference; permutation metamorphic relation (proptest)", "3/C17"),
+ "C16": ("exploration", "generated part sequences, re-splittings and props vs normal-form equality and reference renderer; std::format! differential in generated programs; libFuzzer target template_eq_render", "3/C16"),
+ "C17": ("exploration", "generated registration lists x modules x level values vs linear-scan longest-prefix reference; permutation metamorphic relation (proptest) + libFuzzer target level_path_map", "3/C17"),
  "C18": ("exploration", "generated span trees x sampler decision tables x incoming headers x hops vs traceparent stack model and sampler-call log (proptest)", "3/C18"),
  "C19": ("exploration", "generated primitive and structured values x capture modes x read paths: typed round trip and serde/sval cross-framework JSON equality (proptest)", "3/C19"),
  "C20": ("exploration", "generated numbers of racing initialisers/observers with start skews on OS threads vs tagged-component agreement invariant (stress sampling)", "3/C20"),
